@@ -6,7 +6,13 @@ document is extracted in two fresh processes with different hash seeds, in OPPOS
 with and without a path, twice in the same process; observers -- including reading the streams handed out by
 get_bytes() -- are interleaved with to_json(); the input buffer is compared before/after.
 
+The two processes of a run also differ in everything that is not an input of extraction: locale / default text encoding, time
+zone, terminal size, working directory, unrelated environment variables.  Differences recorded as known findings
+(known_findings.json, `mismatch` signature) are listed separately and never hide new ones.
+
 Targeted searches (chosen by the obligation's `replay_hint`):
+  frame   function-level (after the corpus run): instances of the result class found in corpus results and small perturbations
+          of them (ragged / empty / repeated list fields), the observer called twice, everything reachable compared;
   stream  function-level: the reader is called on one BytesIO at several cursor positions;
   state   function-level: a memoised function is called on a pool of near-colliding inputs after different histories;
   order   synthetic documents under three hash seeds;
